@@ -1,37 +1,110 @@
 /-!
 # Server first contact (pkg/protocol/underlay_stream.go readOneSegment / RunEventLoop,
-# underlay_packet.go readOneSegment / RunEventLoop, server_session_validation.go)
+# underlay_packet.go readOneSegment / parseSessionSegment / parseDataAckSegment / RunEventLoop,
+# server_session_validation.go, metadata.go Unmarshal)
 
-What a server does with what arrives on a port, abstracted to the facts the code branches on.
-Cryptography is symbolic: `opens = some u` means "the metadata AEAD opens under the key of
-registered user u (for one of the three tried slots)"; a party that knows no registered credential
-can only produce `opens = none` (the ideal-AEAD hypothesis of DESIGN.md §5).
+What a server does with what arrives on a port.  Lengths, protocol numbers and session ids are
+concrete (the byte thresholds of the two first reads, the exact datagram size checks, the two
+validation functions of server_session_validation.go are computed by the model); cryptography is
+symbolic: `opens = some u` means "the metadata AEAD opens under the key of registered user u (for one
+of the three tried slots)"; a party that knows no registered credential can only produce
+`opens = none` (the ideal-AEAD hypothesis of DESIGN.md §5).
 
-`out` is everything the server writes to the network for this peer; `accepted` the sessions handed
-to the proxy application.
+`out` is everything the server writes to the network for this peer (one `sessionTraffic` entry per
+session created stands for everything that session writes; `closeReq` is the close request the event
+loop itself sends for data addressed to an unknown session); `accepted` the sessions handed to the
+proxy application.
+
+Every constant and every protocol classification below is proved equal to the definition regenerated
+from the Go source in `Mieru.Props.C05` (`server_constants_match_code`, `classification_matches_code`,
+`validation_matches_code`).  Core Lean only.
 -/
 namespace Mieru.Server
 
-inductive Kind where
-  | openReq (sid : Nat)       -- openSessionRequest
-  | otherSession (sid : Nat)  -- openSessionResponse / closeSessionRequest / closeSessionResponse
-  | dataAck (sid : Nat)       -- data or ack
-  | unknown                   -- undefined protocol type
+/-! ## Constants (metadata.go, cipher) -/
+
+def metadataLength : Nat := 32
+/-- `cipher.DefaultOverhead`: the AEAD tag -/
+def overhead : Nat := 16
+/-- `cipher.DefaultNonceSize` -/
+def nonceSize : Nat := 24
+/-- first read of a stream underlay: nonce + metadata + tag -/
+def firstReadLen : Nat := metadataLength + overhead + nonceSize
+/-- every later read: metadata + tag (implicit nonce) -/
+def laterReadLen : Nat := metadataLength + overhead
+/-- `packetNonHeaderPosition`: a datagram shorter than this is dropped unread -/
+def packetHeaderLen : Nat := nonceSize + metadataLength + overhead
+/-- `MaxSessionOpenPayload` -/
+def maxSessionOpenPayload : Nat := 1024
+
+/-! ## Protocol numbers and their classification (metadata.go) -/
+
+def pOpenReq : Nat := 2
+def pOpenResp : Nat := 3
+def pCloseReq : Nat := 4
+def pCloseResp : Nat := 5
+
+def isSession (p : Nat) : Bool := p == 2 || p == 3 || p == 4 || p == 5
+def isData (p : Nat) : Bool := p == 6 || p == 7 || p == 10 || p == 11
+def isAck (p : Nat) : Bool := p == 8 || p == 9
+def isDataAck (p : Nat) : Bool := isData p || isAck p
+def isLowEntropy (p : Nat) : Bool := p == 10 || p == 11
+
+/-- `validateServerSegmentDirection`: the protocols a client may send -/
+def clientToServer (p : Nat) : Bool := p == 2 || p == 4 || p == 5 || p == 6 || p == 10 || p == 8
+
+/-- `validateNewServerSessionSegment`: the only segment that may create a server session -/
+def validNewSession (p sid : Nat) : Bool := p == pOpenReq && sid != 0
+
+/-- the fields of a decrypted metadata block the server branches on -/
+structure Md where
+  proto : Nat
+  sid : Nat
+  payloadLen : Nat := 0
+  prefixLen : Nat := 0
+  suffixLen : Nat := 0
+  /-- the timestamp is within one minute of the receiver's clock (`mathext.WithinRange(…, 1)`) -/
+  tsOk : Bool := true
+  /-- low-entropy fields validate and the body decodes (types 10 / 11 only) -/
+  leOk : Bool := true
 deriving DecidableEq, Repr
+
+/-- `sessionStruct.Unmarshal` / `dataAckStruct.Unmarshal` succeed; an undefined protocol type is
+    refused before either is tried -/
+def unmarshalOk (m : Md) : Bool :=
+  if isSession m.proto then m.tsOk && decide (m.payloadLen ≤ maxSessionOpenPayload)
+  else if isDataAck m.proto then m.tsOk && (!isLowEntropy m.proto || m.leOk)
+  else false
+
+/-- bytes a payload of `n` plaintext bytes occupies on the wire (nothing when empty) -/
+def wirePayload (n : Nat) : Nat := if n > 0 then n + overhead else 0
+
+/-- bytes `readSessionSegment` / `readDataAckSegment` read after the metadata -/
+def tcpBodyNeed (m : Md) : Nat :=
+  (if isSession m.proto then 0 else m.prefixLen) + wirePayload m.payloadLen + m.suffixLen
+
+inductive Out where
+  | closeReq (sid : Nat)        -- closeSessionRequest for an unknown session
+  | sessionTraffic (sid : Nat)  -- anything a session writes (open response, data, acks, close)
+deriving DecidableEq, Repr
+
+/-! ## TCP: one stream underlay -/
 
 /-- one attempt of the TCP event loop to read a segment -/
 structure TcpUnit where
-  enough : Bool            -- enough bytes arrived for nonce+metadata (72 first, 48 later)
-  opens : Option Nat       -- registered user whose key opens the metadata
-  dup : Bool               -- replay cache: the 16-byte signature was seen before
-  metaOk : Bool            -- metadata unmarshals (type known, timestamp within a minute, lengths)
-  bodyOk : Bool            -- payload arrives, opens, padding arrives
-  kind : Kind
-deriving DecidableEq, Repr
-
-inductive Out where
-  | closeReq (sid : Nat)   -- closeSessionRequest for an unknown session
-  | sessionTraffic (sid : Nat) -- anything a session writes (open response, data, acks)
+  /-- header bytes that arrive before the stream stalls (read timeout) or ends -/
+  avail : Nat
+  /-- the stream ended (peer closed) rather than stalled -/
+  eof : Bool := false
+  /-- registered user whose key opens the metadata -/
+  opens : Option Nat
+  /-- replay cache: the 16-byte signature of the header was seen before -/
+  dup : Bool := false
+  md : Md
+  /-- bytes that arrive after the header -/
+  bodyAvail : Nat := 0
+  /-- the payload AEAD opens (read only when `md.payloadLen > 0`) -/
+  payloadOpens : Bool := true
 deriving DecidableEq, Repr
 
 structure TcpSt where
@@ -40,52 +113,74 @@ structure TcpSt where
   accepted : List Nat := []
   out : List Out := []
   closed : Bool := false
+  /-- the loop ended with a CRYPTO_ERROR or REPLAY_ERROR: `drainAfterError` keeps reading (never
+      writing) for a randomised 1–60 s / up to 32 KiB before the connection is closed; every other
+      error closes it at once -/
+  drain : Bool := false
 deriving DecidableEq, Repr
+
+/-- the switch of `StreamUnderlay.RunEventLoop` (server) for a complete, authenticated segment -/
+def tcpDispatch (s : TcpSt) (m : Md) : TcpSt :=
+  if isSession m.proto then
+    if m.proto = pOpenReq then
+      if m.sid = 0 then { s with closed := true }                      -- onOpenSessionRequest: reserved id
+      else if m.sid ∈ s.sessions then s                                -- id already used: ignored
+      else { s with sessions := m.sid :: s.sessions, accepted := m.sid :: s.accepted,
+                    out := s.out ++ [.sessionTraffic m.sid] }
+    else if m.proto = pOpenResp then { s with closed := true }          -- ErrInvalidOperation on a server
+    else s                                                              -- close request / response
+  else if m.sid ∈ s.sessions then s                                     -- data / ack for a known session
+  else { s with out := s.out ++ [.closeReq m.sid] }                     -- unknown session: ask the peer to close it
+
+/-- bytes of the header read: the first read of an underlay also carries the nonce -/
+def headerLen (s : TcpSt) : Nat := if s.recv.isNone then firstReadLen else laterReadLen
+
+/-- everything after the metadata opened (`recv` is installed in `s`): Unmarshal, body, first-segment
+    validation, dispatch -/
+def tcpAfterOpen (s : TcpSt) (first : Bool) (u : TcpUnit) : TcpSt :=
+  if !unmarshalOk u.md then { s with closed := true }                   -- PROTOCOL_ERROR
+  else if u.bodyAvail < tcpBodyNeed u.md then { s with closed := true } -- NETWORK_ERROR
+  else if u.md.payloadLen > 0 && !u.payloadOpens then { s with closed := true, drain := true }   -- CRYPTO_ERROR
+  else if first && !validNewSession u.md.proto u.md.sid then { s with closed := true } -- PROTOCOL_ERROR
+  else tcpDispatch s u.md
 
 /-- one iteration of StreamUnderlay.RunEventLoop on the server -/
 def tcpStep (s : TcpSt) (u : TcpUnit) : TcpSt :=
   if s.closed then s else
-  if !u.enough then { s with closed := true }           -- io.ReadFull fails / times out: NETWORK_ERROR
+  if u.avail < headerLen s then
+    if u.avail = 0 ∧ u.eof = false then s             -- read timeout with no byte: the caller retries
+    else { s with closed := true }                    -- io.ReadFull fails: NETWORK_ERROR, no drain
   else match s.recv with
   | none =>
-    -- first read: discovery over registered users; replay check applies whether or not it opens
+    -- first read: the replay cache is consulted, then discovery over the registered users
     match u.opens with
-    | none => { s with closed := true }                 -- CRYPTO_ERROR or REPLAY_ERROR, drain, close
+    | none => { s with closed := true, drain := true }               -- CRYPTO_ERROR or REPLAY_ERROR, drain, close
     | some usr =>
-      if u.dup then { s with closed := true }           -- REPLAY_ERROR although it decrypts
-      else if !u.metaOk || !u.bodyOk then { s with recv := some usr, closed := true }
-      else match u.kind with
-        | .openReq sid =>
-          if sid = 0 then { s with recv := some usr, closed := true }   -- validateNewServerSessionSegment
-          else { s with recv := some usr, sessions := sid :: s.sessions, accepted := sid :: s.accepted,
-                        out := s.out ++ [.sessionTraffic sid] }
-        | _ => { s with recv := some usr, closed := true }              -- only an open request may be first
+      if u.dup then { s with recv := some usr, closed := true, drain := true }   -- REPLAY_ERROR although it decrypts
+      else tcpAfterOpen { s with recv := some usr } true u
   | some usr =>
     match u.opens with
-    | none => { s with closed := true }
+    | none => { s with closed := true, drain := true }               -- CRYPTO_ERROR
     | some usr' =>
-      if usr' ≠ usr then { s with closed := true }      -- implicit-nonce cipher of another key cannot open
-      else if !u.metaOk || !u.bodyOk then { s with closed := true }
-      else match u.kind with
-        | .openReq sid =>
-          if sid = 0 then { s with closed := true }
-          else if sid ∈ s.sessions then s
-          else { s with sessions := sid :: s.sessions, accepted := sid :: s.accepted, out := s.out ++ [.sessionTraffic sid] }
-        | .otherSession _ => s
-        | .dataAck sid => if sid ∈ s.sessions then s else { s with out := s.out ++ [.closeReq sid] }
-        | .unknown => { s with closed := true }
+      if usr' ≠ usr then { s with closed := true, drain := true }    -- the implicit-nonce cipher of another key cannot open
+      else tcpAfterOpen s false u
 
 def tcpRun (s : TcpSt) (us : List TcpUnit) : TcpSt := us.foldl tcpStep s
 
+/-! ## UDP: the shared socket of a packet underlay -/
+
 /-- one datagram arriving at a server UDP port -/
 structure UdpUnit where
-  long : Bool              -- at least nonce + metadata + tag (72 bytes)
-  existing : Option Nat    -- opens under the cipher of an existing session from the same address
-  discover : Option Nat    -- opens under a registered user's key (discovery)
-  dupOtherSource : Bool    -- replay cache: signature seen with a different source tag
-  metaOk : Bool
-  bodyOk : Bool            -- exact size checks and payload AEAD
-  kind : Kind
+  /-- datagram length -/
+  len : Nat
+  /-- opens under the cipher of an existing session from the same address -/
+  existing : Option Nat := none
+  /-- opens under a registered user's key (discovery) -/
+  discover : Option Nat := none
+  /-- replay cache: signature seen with a different source tag -/
+  dupOther : Bool := false
+  md : Md
+  payloadOpens : Bool := true
 deriving DecidableEq, Repr
 
 structure UdpSt where
@@ -94,29 +189,58 @@ structure UdpSt where
   out : List Out := []
 deriving DecidableEq, Repr
 
+/-- `parseSessionSegment` / `parseDataAckSegment`: the exact size checks on what follows the header
+    (`rem` bytes) and the payload AEAD -/
+def udpBodyOk (rem : Nat) (m : Md) (payloadOpens : Bool) : Bool :=
+  if isSession m.proto then
+    if m.payloadLen > 0 then
+      decide (m.payloadLen + overhead ≤ rem) && payloadOpens && decide (m.payloadLen + overhead + m.suffixLen = rem)
+    else decide (m.suffixLen = rem)
+  else
+    if m.prefixLen > rem then false else
+    if m.payloadLen > 0 then
+      decide (m.payloadLen + overhead ≤ rem - m.prefixLen) &&
+        decide (rem - m.prefixLen = m.payloadLen + overhead + m.suffixLen) && payloadOpens
+    else decide (m.suffixLen = rem - m.prefixLen)
+
+/-- the switch of `PacketUnderlay.RunEventLoop` (server); every failure is `continue` -/
+def udpDispatch (s : UdpSt) (m : Md) : UdpSt :=
+  if isSession m.proto then
+    if m.proto = pOpenReq then
+      if m.sid = 0 ∨ m.sid ∈ s.sessions then s
+      else { s with sessions := m.sid :: s.sessions, accepted := m.sid :: s.accepted,
+                    out := s.out ++ [.sessionTraffic m.sid] }
+    else s          -- open response: dropped (ErrInvalidOperation); close: delivered to its session or ignored
+  else if m.sid ∈ s.sessions then s
+  else { s with out := s.out ++ [.closeReq m.sid] }
+
 /-- PacketUnderlay.readOneSegment + RunEventLoop for one datagram; every failure is `continue` -/
 def udpStep (s : UdpSt) (u : UdpUnit) : UdpSt :=
-  if !u.long then s else
-  match u.existing, u.discover with
-  | none, none => s
-  | some _, _ =>
-    if !u.metaOk || !u.bodyOk then s else
-    match u.kind with
-    | .openReq sid => if sid = 0 ∨ sid ∈ s.sessions then s
-                      else { s with sessions := sid :: s.sessions, accepted := sid :: s.accepted, out := s.out ++ [.sessionTraffic sid] }
-    | .otherSession _ => s
-    | .dataAck sid => if sid ∈ s.sessions then s else { s with out := s.out ++ [.closeReq sid] }
-    | .unknown => s
-  | none, some _ =>
-    if u.dupOtherSource then s else
-    if !u.metaOk || !u.bodyOk then s else
-    match u.kind with
-    | .openReq sid => if sid = 0 ∨ sid ∈ s.sessions then s
-                      else { s with sessions := sid :: s.sessions, accepted := sid :: s.accepted, out := s.out ++ [.sessionTraffic sid] }
-    | .otherSession _ => s
-    | .dataAck sid => if sid ∈ s.sessions then s else { s with out := s.out ++ [.closeReq sid] }
-    | .unknown => s
+  if u.len < packetHeaderLen then s else
+  if u.existing.isNone && u.discover.isNone then s else   -- neither path decrypts
+  if u.dupOther then s else                               -- replay, dropped although it decrypts (either path)
+  if !unmarshalOk u.md then s else
+  if !udpBodyOk (u.len - packetHeaderLen) u.md u.payloadOpens then s else
+  -- only a datagram authenticated by discovery is validated as a possible new session
+  if u.existing.isNone && !clientToServer u.md.proto then s else
+  if u.existing.isNone && u.md.proto = pOpenReq && !validNewSession u.md.proto u.md.sid then s else
+  udpDispatch s u.md
 
 def udpRun (s : UdpSt) (us : List UdpUnit) : UdpSt := us.foldl udpStep s
+
+/-! ## What it takes to be answered -/
+
+/-- a complete, fresh, authenticated, well-formed open-session request with a non-zero id as the
+    FIRST segment of a stream: the only unit that makes a fresh underlay do anything but close -/
+def TcpUnit.validOpen (u : TcpUnit) : Bool :=
+  decide (firstReadLen ≤ u.avail) && u.opens.isSome && !u.dup && unmarshalOk u.md &&
+  decide (tcpBodyNeed u.md ≤ u.bodyAvail) && (u.md.payloadLen == 0 || u.payloadOpens) &&
+  validNewSession u.md.proto u.md.sid
+
+/-- a datagram that gets as far as the dispatch switch -/
+def UdpUnit.effective (u : UdpUnit) : Bool :=
+  decide (packetHeaderLen ≤ u.len) && (u.existing.isSome || u.discover.isSome) && !u.dupOther &&
+  unmarshalOk u.md && udpBodyOk (u.len - packetHeaderLen) u.md u.payloadOpens &&
+  (u.existing.isSome || (clientToServer u.md.proto && (u.md.proto != pOpenReq || validNewSession u.md.proto u.md.sid)))
 
 end Mieru.Server
